@@ -1,2 +1,205 @@
-/- placeholder: the C13 driver is not built yet -/
-def main : IO Unit := IO.println "C13: driver not built yet"
+/- C13 line-protocol driver.
+
+   For every case line it prints
+     `<mct>/<mrt> <mct>/<mrt> <mct>/<mrt>` TAB `<s>/<s> <s>/<s> <s>/<s>`
+   where `mct` is the model of the path taken in constant evaluation, `mrt` the model of the path taken at run
+   time (a compiler builtin is modelled by its specification) and `s` the specification; the three groups are the
+   three builds of the harness (-O0, -O2, -O1 with sanitizers), which all have the same model.
+   A result the standard leaves unspecified is printed as a single `*`.
+
+   Float arguments and results are bit patterns: arguments in decimal (64-bit ones as the signed reading of the
+   pattern), results in hex, every NaN as `nan`. -/
+import Tetl.Proto
+import Tetl.C13.Model
+import Tetl.C13.Spec
+import Tetl.C14.Model
+import Tetl.C14.Spec
+import Tetl.C18.Model
+import Tetl.C18.Spec
+namespace Tetl.C13.Driver
+open Tetl Tetl.Proto Tetl.C13
+
+def hexDigit (n : Nat) : Char := if n < 10 then Char.ofNat (48 + n) else Char.ofNat (87 + n)
+def hexPad (digits n : Nat) : String :=
+  String.ofList ((List.range digits).reverse.map (fun i => hexDigit (n / 16 ^ i % 16)))
+
+def fmtF (f : Fmt) (b : Nat) : String := if f.isNaN b then "nan" else hexPad (f.width / 4) b
+def fmtEF (f : Fmt) : Except Err Nat → String
+  | .ok b => fmtF f b
+  | .error _ => "cfail"
+def fmtEI : Except Err Int → String
+  | .ok i => toString i
+  | .error _ => "cfail"
+def fmtE {α : Type} (g : α → String) : Except Err α → String
+  | .ok a => g a
+  | .error e => e.fmt
+
+def bitsArg (f : Fmt) (l : Line) (k : String) : Option Nat :=
+  (l.int? k).map (fun i => (i % ((2 ^ f.width : Nat) : Int)).toNat)
+
+def three (s : String) : String := s ++ " " ++ s ++ " " ++ s
+def out3 (mct mrt s : String) : Unit × String :=
+  ((), three (mct ++ "/" ++ mrt) ++ "\t" ++ three (s ++ "/" ++ s))
+def unspecified : Unit × String := ((), "*\t*")
+
+def splitOp (op : String) : String × String :=
+  match (op.splitOn "_").reverse with
+  | ty :: rest@(_ :: _) => ("_".intercalate rest.reverse, ty)
+  | _ => (op, "")
+
+def fmtOf : String → Option Fmt
+  | "f32" => some f32 | "f64" => some f64 | _ => none
+
+def ityOf : String → Option C14.ITy
+  | "u8" => some ⟨8, false⟩ | "u16" => some ⟨16, false⟩ | "u32" => some ⟨32, false⟩ | "u64" => some ⟨64, false⟩
+  | "i8" => some ⟨8, true⟩ | "i16" => some ⟨16, true⟩ | "i32" => some ⟨32, true⟩ | "i64" => some ⟨64, true⟩
+  | _ => none
+
+/-- the value of type `t` whose 64-bit signed reading is `i` (unsigned 64-bit arguments are passed that way) -/
+def argOf (t : C14.ITy) (i : Int) : Int := if t.sg then i else i % ((2 ^ t.w : Nat) : Int)
+
+def fmtPtr : Option Nat → String
+  | none => "null"
+  | some a => toString a
+
+def ctypeM (f : String) (c : Int) : Option String :=
+  match f with
+  | "isalnum" => some (fmtBool (C18.isalnum c)) | "isalpha" => some (fmtBool (C18.isalpha c))
+  | "isblank" => some (fmtBool (C18.isblank c)) | "iscntrl" => some (fmtBool (C18.iscntrl c))
+  | "isdigit" => some (fmtBool (C18.isdigit c)) | "isgraph" => some (fmtBool (C18.isgraph c))
+  | "islower" => some (fmtBool (C18.islower c)) | "isprint" => some (fmtBool (C18.isprint c))
+  | "ispunct" => some (fmtBool (C18.ispunct c)) | "isspace" => some (fmtBool (C18.isspace c))
+  | "isupper" => some (fmtBool (C18.isupper c)) | "isxdigit" => some (fmtBool (C18.isxdigit c))
+  | "tolower" => some (toString (C18.tolower c)) | "toupper" => some (toString (C18.toupper c))
+  | _ => none
+
+def ctypeS (f : String) (c : Int) : Option String :=
+  match f with
+  | "isalnum" => some (fmtBool (C18.Spec.isalnum c)) | "isalpha" => some (fmtBool (C18.Spec.isalpha c))
+  | "isblank" => some (fmtBool (C18.Spec.isblank c)) | "iscntrl" => some (fmtBool (C18.Spec.iscntrl c))
+  | "isdigit" => some (fmtBool (C18.Spec.isdigit c)) | "isgraph" => some (fmtBool (C18.Spec.isgraph c))
+  | "islower" => some (fmtBool (C18.Spec.islower c)) | "isprint" => some (fmtBool (C18.Spec.isprint c))
+  | "ispunct" => some (fmtBool (C18.Spec.ispunct c)) | "isspace" => some (fmtBool (C18.Spec.isspace c))
+  | "isupper" => some (fmtBool (C18.Spec.isupper c)) | "isxdigit" => some (fmtBool (C18.Spec.isxdigit c))
+  | "tolower" => some (toString (C18.Spec.tolower c)) | "toupper" => some (toString (C18.Spec.toupper c))
+  | _ => none
+
+def floatUnary (f : Fmt) (name : String) (b : Nat) : Option (Unit × String) :=
+  let rnd (m : FSpec.Mode) (ct : Except Err Nat) (rtIsBuiltin : Bool) :=
+    let s := fmtF f (FSpec.roundTo f m b)
+    some (out3 (fmtEF f ct) (if rtIsBuiltin then s else fmtEF f ct) s)
+  match name with
+  | "floor" => rnd .floor (Model.gcemFloor f b) true
+  | "ceil" => rnd .ceil (Model.gcemCeil f b) false          -- no dispatch: gcem on both paths
+  | "trunc" => rnd .trunc (Model.gcemTrunc f b) true
+  | "round" => rnd .round (Model.gcemRound f b) true
+  | "rint" => rnd .rint (Model.rintFallback f b) true
+  | "lrint" | "llrint" =>
+    match FSpec.lrint f 64 b with
+    | none => some unspecified
+    | some v => some (out3 (fmtEI (Model.lrintFallback f 64 b)) (toString v) (toString v))
+  | "signbit" => let s := fmtBool (FSpec.signbit f b); some (out3 s s s)
+  | "isnan" => let s := fmtBool (f.isNaN b); some (out3 s s s)
+  | "isinf" => let s := fmtBool (f.isInf b); some (out3 s s s)
+  | "isfinite" => let s := fmtBool (f.isFinite b); some (out3 s s s)
+  | "bit_cast" => let s := hexPad (f.width / 4) b; some (out3 s s s)
+  | _ => none
+
+def step (_ : Unit) (l : Line) : Unit × String :=
+  let bad := ((), "bad-op\tbad-op")
+  let (name, ty) := splitOp l.op
+  match l.op with
+  | "strlen" =>
+    match l.natList? "s" with
+    | some s =>
+      let b := s ++ [0]
+      let m := fmtE toString (C18.strlen b 0)
+      out3 m m (toString (C18.Spec.strlen b 0))
+    | none => bad
+  | "strcmp" =>
+    match l.natList? "a", l.natList? "b" with
+    | some a, some b =>
+      let (a, b) := (a ++ [0], b ++ [0])
+      let m := fmtE toString (C18.strcmp C18.CT.char a 0 b 0)
+      out3 m m (toString (C18.Spec.strcmp (C18.Spec.key 8 false) a 0 b 0))
+    | _, _ => bad
+  | "strncmp" =>
+    match l.natList? "a", l.natList? "b", l.nat? "n" with
+    | some a, some b, some n =>
+      let (a, b) := (a ++ [0], b ++ [0])
+      let m := fmtE toString (C18.strncmp C18.CT.char a 0 b 0 n)
+      out3 m m (toString (C18.Spec.strncmp (C18.Spec.key 8 false) a 0 b 0 n))
+    | _, _, _ => bad
+  | "strchr" =>
+    match l.natList? "s", l.int? "c" with
+    | some s, some c =>
+      let b := s ++ [0]
+      let m := fmtE fmtPtr (C18.strchr C18.CT.char b 0 c)
+      out3 m m (fmtPtr (C18.Spec.strchr b 0 (C18.Spec.toUnit 8 c)))
+    | _, _ => bad
+  | "ctype" =>
+    match l.str? "f", l.int? "c" with
+    | some f, some c =>
+      match ctypeM f c, ctypeS f c with
+      | some m, some s => out3 m m s
+      | _, _ => bad
+    | _, _ => bad
+  | _ =>
+  match fmtOf ty with
+  | some f =>
+    match name with
+    | "copysign" =>
+      match bitsArg f l "x", bitsArg f l "y" with
+      | some x, some y =>
+        let s := fmtF f (FSpec.copysign f x y)
+        out3 (fmtF f (Model.copysignFallback f x y)) s s
+      | _, _ => bad
+    | "fma" =>
+      match bitsArg f l "x", bitsArg f l "y", bitsArg f l "z" with
+      | some x, some y, some z =>
+        let r := f.fma x y z
+        let t := Model.fmaTwoStep f x y z
+        let anyNaN := f.isNaN x || f.isNaN y || f.isNaN z
+        -- [expr.pre]/4: a result that is not mathematically defined (inf·0, inf−inf) or not representable (overflow of a
+        -- finite computation, in either the fused or the two-step evaluation) is undefined, hence no constant expression
+        let invalid := !anyNaN && (f.isNaN r || f.isNaN t)
+        let overflow := (f.isFinite x && f.isFinite y && f.isFinite z) && (!f.isFinite r || !f.isFinite (f.mul x y) || !f.isFinite t)
+        if invalid || overflow then unspecified
+        else
+          let s := fmtF f r
+          out3 (fmtF f (Model.fmaTwoStep f x y z)) s s
+      | _, _, _ => bad
+    | _ =>
+      match bitsArg f l "x" with
+      | some b => (floatUnary f name b).getD bad
+      | none => bad
+  | none =>
+  match ityOf ty, l.int? "x" with
+  | some t, some xi =>
+    let x := argOf t xi
+    match name with
+    | "popcount" =>
+      if t.sg then bad else
+      let s := toString (C14.Spec.popcount t.w x.toNat)
+      out3 (fmtE toString (C14.popcountFallback t.w x.toNat)) s s
+    | "byteswap" =>
+      if t.sg || t.w == 8 then bad else
+      let s := toString (C14.Spec.bswap (t.w / 8) x.toNat)
+      out3 s s s
+    | "byteswap_fb" =>
+      if t.sg || t.w == 8 then bad else
+      let m := fmtE toString (C14.byteswapFallback t.w x.toNat)
+      out3 m m (toString (C14.Spec.bswap (t.w / 8) x.toNat))
+    | "add_sat" | "add_sat_fb" =>
+      match l.int? "y" with
+      | some yi =>
+        let y := argOf t yi
+        let m := fmtE toString (if name == "add_sat" then C14.addSat t x y else C14.addSatFallback t x y)
+        out3 m m (toString (C14.Spec.clampTo t.min t.max (x + y)))
+      | none => bad
+    | _ => bad
+  | _, _ => bad
+
+end Tetl.C13.Driver
+
+def main : IO Unit := Tetl.Proto.runDriver () Tetl.C13.Driver.step
